@@ -34,6 +34,7 @@ func runC01(e *Env) {
 	r.Rule("C01.R3", "paths+siblings", "size computation and write share one code path; marker counted iff written", 8)
 	r.Rule("C01.R4", "flows", "encoders never extend the destination slice", 6)
 	r.Rule("C01.R5", "paths+absint", "validation dominates the first write; validators accept exactly the legal range", 6)
+	r.Rule("C01.R6", "paths+flows", "decoders store every header field on every successful return; consecutive sub-parsers each start where the previous one stopped", 8)
 	if e.want("C01.R1") {
 		c01OptionClasses(e, "C01.R1")
 		c01StreamLength(e, "C01.R1")
@@ -51,6 +52,10 @@ func runC01(e *Env) {
 	}
 	if e.want("C01.R5") {
 		c01Validation(e)
+	}
+	if e.want("C01.R6") {
+		checkDecoderAssignsAll(e, "C01.R6")
+		cursorLinearity(e, "C01.R6")
 	}
 }
 
